@@ -54,6 +54,102 @@ theorem capAfter_ge : ∀ (k cap len : Nat), 0 < cap → len ≤ cap → cap ≤
     · have := capAfter_ge k (2 * cap) (len + 1) (by omega) (by omega); omega
     · have := capAfter_ge k cap (len + 1) hc (by omega); omega
 
+/-! ### the budget of the size cache: which arguments take a slot -/
+
+mutual
+/-- takes no slot of the size cache, at any depth: no C string / `char[N]` / direct-format value inside and no
+    container that caches its element count -/
+def slotFree : Arg → Bool
+  | .cstr _ => false
+  | .carr _ => false
+  | .direct _ => false
+  | .seq ki _ elems => !ki.pushCount && slotFreeL elems
+  | .optSome a => slotFree a
+  | .pair a b => slotFree a && slotFree b
+  | .tuple l => slotFreeL l
+  | _ => true
+def slotFreeL : List Arg → Bool
+  | [] => true
+  | a :: as => slotFree a && slotFreeL as
+end
+
+/-- a variable-length C-string argument: `char const*` / `char*` (null included) or `char[N]` -/
+def cstrLike : Arg → Bool
+  | .cstr _ => true
+  | .carr _ => true
+  | _ => false
+
+/-- the number of variable-length C-string arguments of a statement -/
+def countCStr (args : List Arg) : Nat := (args.filter cstrLike).length
+
+mutual
+theorem slotFree_lens : ∀ (a : Arg), slotFree a = true → lens a = []
+  | .prim _ _, _ => by simp [lens]
+  | .cstr _, h => by simp [slotFree] at h
+  | .carr _, h => by simp [slotFree] at h
+  | .str _, _ => by simp [lens]
+  | .seq ki es elems, h => by
+    simp only [slotFree, Bool.and_eq_true, Bool.not_eq_true'] at h
+    simp [lens, h.1, slotFreeL_lens elems h.2]
+  | .optNone _, _ => by simp [lens]
+  | .optSome a, h => by simp only [slotFree] at h; simp [lens, slotFree_lens a h]
+  | .pair a b, h => by
+    simp only [slotFree, Bool.and_eq_true] at h
+    simp [lens, slotFree_lens a h.1, slotFree_lens b h.2]
+  | .tuple l, h => by simp only [slotFree] at h; simp [lens, slotFreeL_lens l h]
+  | .pod _, _ => by simp [lens]
+  | .nonpod _ _, _ => by simp [lens]
+  | .direct _, h => by simp [slotFree] at h
+  | .sref _ _, _ => by simp [lens]
+  | .path _, _ => by simp [lens]
+theorem slotFreeL_lens : ∀ (as : List Arg), slotFreeL as = true → lensL as = []
+  | [], _ => by simp [lensL]
+  | a :: as, h => by
+    simp only [slotFreeL, Bool.and_eq_true] at h
+    simp [lensL, slotFree_lens a h.1, slotFreeL_lens as h.2]
+end
+
+theorem cstrLike_lens (a : Arg) (h : cstrLike a = true) : (lens a).length = 1 := by
+  cases a with
+  | cstr m => cases m <;> simp [lens]
+  | carr m => simp [lens]
+  | _ => simp [cstrLike] at h
+
+/-- a statement made of C strings and of arguments that take no slot caches one length per C string -/
+theorem budget_length : ∀ (args : List Arg), args.all (fun a => cstrLike a || slotFree a) = true →
+    (lensL args).length = countCStr args
+  | [], _ => by simp [lensL, countCStr]
+  | a :: as, h => by
+    simp only [List.all_cons, Bool.and_eq_true, Bool.or_eq_true] at h
+    have ih := budget_length as h.2
+    simp only [countCStr] at ih ⊢
+    simp only [lensL, List.length_append, ih, List.filter_cons]
+    cases hc : cstrLike a
+    · have hs : slotFree a = true := by simpa [hc] using h.1
+      simp [slotFree_lens a hs]
+    · simp [cstrLike_lens a hc]; omega
+
+/-! ### the queue between log calls -/
+
+theorem drain_cap (pub : Bool) (pct : Nat) (q : Queue) : (q.drain pub pct).cap = q.cap ∧ (q.drain pub pct).maxCap = q.maxCap := by
+  unfold Queue.drain; split <;> simp
+
+theorem drain_publish_used (pct : Nat) (q : Queue) : (q.drain true pct).used = 0 := by
+  simp [Queue.drain]
+
+theorem run_append (f : Frame) (pub : Bool) (pct : Nat) (fe : Frontend) (ops1 ops2 : List FOp) :
+    Frontend.run f pub pct fe (ops1 ++ ops2) = Frontend.run f pub pct (Frontend.run f pub pct fe ops1) ops2 := by
+  simp [Frontend.run, List.foldl_append]
+
+/-- once a thread has logged it stays registered -/
+theorem run_registered (f : Frame) (pub : Bool) (pct : Nat) : ∀ (ops : List FOp) (fe : Frontend),
+    fe.registered = true → (Frontend.run f pub pct fe ops).registered = true
+  | [], fe, h => by simpa [Frontend.run] using h
+  | op :: ops, fe, h => by
+    have : (Frontend.step f pub pct fe op).registered = true := by
+      cases op <;> simp [Frontend.step, logCall, h]
+    simpa [Frontend.run] using run_registered f pub pct ops _ this
+
 /-! ### which arguments run user code on the calling thread -/
 
 mutual
